@@ -44,6 +44,256 @@ theorem genRows_clean (d c : Char) (comments : List Char) (header body : List St
   rw [h5]
   exact List.map_congr_left (fun s hs => h.fields s hs)
 
+/-! ### scan_header -/
+
+def isCommentLine (comments : List Char) (row : String) : Bool :=
+  comments.any (fun c => decide (row.toList.head? = some c))
+
+/-- `comment_guess` after the header lines -/
+def lastComment (c0 : Char) (header : List String) : Char :=
+  header.foldl (fun c row => row.toList.headD c) c0
+
+theorem scanFold_header (delims comments : List Char) (nScan : Nat) (header : List String) (st : ScanState)
+    (hrows : st.rows = []) (hh : ∀ s ∈ header, isCommentLine comments s = true) :
+    header.foldl (scanStep delims comments nScan) st
+      = { st with headerLength := st.headerLength + header.length, comment := lastComment st.comment header } := by
+  induction header generalizing st with
+  | nil => simp [lastComment]
+  | cons row rest ih =>
+    simp only [List.foldl_cons]
+    have hc := hh row (by simp)
+    unfold isCommentLine at hc
+    have hstep : scanStep delims comments nScan st row
+        = { st with headerLength := st.headerLength + 1, comment := row.toList.headD st.comment } := by
+      unfold scanStep
+      have h0 : ¬ (st.rows.length = nScan ∧ 0 < nScan) := by
+        rw [hrows]; simp only [List.length_nil]; omega
+      simp only [h0, if_false, hc, if_true]
+    rw [hstep]
+    rw [ih { st with headerLength := st.headerLength + 1, comment := row.toList.headD st.comment } hrows
+      (fun s hs => hh s (List.mem_cons_of_mem _ hs))]
+    simp only [List.length_cons, lastComment, List.foldl_cons]
+    congr 1
+    omega
+
+theorem scanFold_body (delims comments : List Char) (nScan : Nat) (body : List String) (st : ScanState)
+    (hb : ∀ s ∈ body, isCommentLine comments s = false)
+    (hn : st.rows.length + body.length ≤ nScan) :
+    body.foldl (scanStep delims comments nScan) st
+      = { st with rows := (body.map rstrip).reverse ++ st.rows,
+                  counts := (body.map fun row => delims.map (fun d => countChar d row)).reverse ++ st.counts } := by
+  induction body generalizing st with
+  | nil => simp
+  | cons row rest ih =>
+    simp only [List.foldl_cons]
+    have hc := hb row (by simp)
+    unfold isCommentLine at hc
+    have hlen : st.rows.length + (rest.length + 1) ≤ nScan := by simpa using hn
+    have hstep : scanStep delims comments nScan st row
+        = { st with rows := rstrip row :: st.rows, counts := delims.map (fun d => countChar d row) :: st.counts } := by
+      unfold scanStep
+      have h0 : ¬ (st.rows.length = nScan ∧ 0 < nScan) := by omega
+      simp only [h0, if_false, hc, Bool.false_eq_true]
+    rw [hstep]
+    rw [ih { st with rows := rstrip row :: st.rows, counts := delims.map (fun d => countChar d row) :: st.counts }
+      (fun s hs => hb s (List.mem_cons_of_mem _ hs)) (by simp only [List.length_cons]; omega)]
+    simp [List.reverse_cons, List.append_assoc]
+
+/-- the state of the scan after a file made of comment lines followed by at most `n_scan` data rows -/
+theorem scanFold_clean (delims comments : List Char) (nScan : Nat) (header body : List String)
+    (hh : ∀ s ∈ header, isCommentLine comments s = true)
+    (hb : ∀ s ∈ body, isCommentLine comments s = false)
+    (hn : body.length ≤ nScan) :
+    scanFold (header ++ body) delims comments nScan
+      = ⟨header.length, lastComment (comments.headD '#') header, (body.map rstrip).reverse,
+         (body.map fun row => delims.map (fun d => countChar d row)).reverse⟩ := by
+  unfold scanFold
+  rw [List.foldl_append, scanFold_header delims comments nScan header _ rfl hh,
+      scanFold_body delims comments nScan body _ hb (by simpa using hn)]
+  simp
+
+theorem scanHeader_clean (delims comments : List Char) (nScan : Nat) (header body : List String)
+    (hh : ∀ s ∈ header, isCommentLine comments s = true)
+    (hb : ∀ s ∈ body, isCommentLine comments s = false)
+    (hn : body.length ≤ nScan) :
+    (scanHeader (header ++ body) delims comments nScan).headerLength = header.length ∧
+    (scanHeader (header ++ body) delims comments nScan).comment = lastComment (comments.headD '#') header ∧
+    (scanHeader (header ++ body) delims comments nScan).delimiter
+      = delims.getD (chooseDelimiter delims.length (body.map fun row => delims.map (fun d => countChar d row))) ' ' ∧
+    (scanHeader (header ++ body) delims comments nScan).layout
+      = layoutOf (scanHeader (header ++ body) delims comments nScan).delimiter (body.map rstrip) := by
+  unfold scanHeader
+  rw [scanFold_clean delims comments nScan header body hh hb hn]
+  simp
+
+theorem chooseDelimiter_single (counts : List (List Nat)) : chooseDelimiter 1 counts = 0 := by
+  unfold chooseDelimiter
+  have hr : List.range 1 = [0] := rfl
+  rw [hr]
+  by_cases h : consistentCol counts 0 = true
+  · simp [h]
+  · simp only [List.filter_cons, h, List.filter_nil]
+    by_cases he : counts.isEmpty = true
+    · simp [he]
+    · simp [he, argmaxNat]
+
+/-- when exactly one candidate has the same positive count on every scanned row, it is the guess -/
+theorem chooseDelimiter_unique (n : Nat) (counts : List (List Nat)) (k : Nat) (hk : k < n)
+    (hc : consistentCol counts k = true) (hu : ∀ j, j < n → j ≠ k → consistentCol counts j = false) :
+    chooseDelimiter n counts = k := by
+  unfold chooseDelimiter
+  have hf : (List.range n).filter (consistentCol counts) = (List.range n).filter (fun j => decide (j = k)) := by
+    apply List.filter_congr
+    intro j hj
+    have hjn : j < n := List.mem_range.mp hj
+    by_cases hjk : j = k
+    · subst hjk; simp [hc]
+    · simp [hjk, hu j hjn hjk]
+  rw [hf, filter_eq_of_nodup _ List.nodup_range]
+  simp [List.mem_range.mpr hk]
+
+theorem splitChars_ne_nil (d : Char) (cs : List Char) : splitChars d cs ≠ [] := by
+  induction cs with
+  | nil => simp [splitChars]
+  | cons c cs ih =>
+    unfold splitChars
+    cases h : splitChars d cs with
+    | nil => exact absurd h ih
+    | cons f fs => by_cases hc : c = d <;> simp [hc]
+
+theorem splitChars_length (d : Char) (cs : List Char) :
+    (splitChars d cs).length = (cs.filter (· = d)).length + 1 := by
+  induction cs with
+  | nil => simp [splitChars]
+  | cons c cs ih =>
+    unfold splitChars
+    cases h : splitChars d cs with
+    | nil => exact absurd h (splitChars_ne_nil d cs)
+    | cons f fs =>
+      rw [h] at ih
+      by_cases hc : c = d
+      · simp only [hc, if_true, List.length_cons, List.filter_cons, decide_true] at ih ⊢
+        omega
+      · simp only [hc, if_false, List.length_cons, List.filter_cons, decide_false] at ih ⊢
+        simp only [Bool.false_eq_true, if_false]
+        omega
+
+/-- a row splits into one more field than it has delimiters -/
+theorem splitAt_length (d : Char) (s : String) : (splitAt d s).length = countChar d s + 1 := by
+  unfold splitAt countChar
+  rw [List.length_map, splitChars_length]
+
+theorem layoutOf_edge (d : Char) (rows : List String) (hne : rows ≠ [])
+    (h : (∀ s ∈ rows, (splitAt d s).length = 2) ∨ (∀ s ∈ rows, (splitAt d s).length = 3)) :
+    layoutOf d rows = .edgeList := by
+  unfold layoutOf
+  have h1 : rows.isEmpty = false := by
+    cases rows with
+    | nil => exact absurd rfl hne
+    | cons _ _ => rfl
+  rcases h with h | h
+  · have : (rows.map fun r => (splitAt d r).length).all (fun x => decide (x = 2)) = true := by
+      rw [List.all_eq_true]
+      intro x hx
+      obtain ⟨s, hs, rfl⟩ := List.mem_map.mp hx
+      simp [h s hs]
+    simp [h1, this]
+  · have : (rows.map fun r => (splitAt d r).length).all (fun x => decide (x = 3)) = true := by
+      rw [List.all_eq_true]
+      intro x hx
+      obtain ⟨s, hs, rfl⟩ := List.mem_map.mp hx
+      simp [h s hs]
+    simp [h1, this]
+
+theorem map_id_of (l : List String) (g : String → String) (h : ∀ s ∈ l, g s = s) : l.map g = l := by
+  conv => rhs; rw [← List.map_id l]
+  exact List.map_congr_left h
+
+/-! ### counts of the candidate delimiters -/
+
+theorem colOf_counts (delims : List Char) (body : List String) (k : Nat) (hk : k < delims.length) :
+    colOf (body.map fun row => delims.map (fun d => countChar d row)) k
+      = body.map fun row => countChar (delims.getD k ' ') row := by
+  unfold colOf
+  rw [List.map_map]
+  apply List.map_congr_left
+  intro row _
+  simp only [Function.comp]
+  rw [List.getD_eq_getElem?_getD, List.getD_eq_getElem?_getD, List.getElem?_map,
+      List.getElem?_eq_getElem hk]
+  rfl
+
+theorem foldl_add_ge (l : List Nat) (init : Nat) : init ≤ l.foldl (· + ·) init := by
+  induction l generalizing init with
+  | nil => exact Nat.le_refl _
+  | cons x xs ih => exact Nat.le_trans (Nat.le_add_right _ _) (ih (init + x))
+
+theorem foldl_add_zero (l : List Nat) (init : Nat) (h : ∀ x ∈ l, x = 0) : l.foldl (· + ·) init = init := by
+  induction l generalizing init with
+  | nil => rfl
+  | cons x xs ih =>
+    simp only [List.foldl_cons]
+    rw [h x (by simp), Nat.add_zero]
+    exact ih init (fun y hy => h y (List.mem_cons_of_mem _ hy))
+
+theorem consistent_of_equal_counts (delims : List Char) (body : List String) (k : Nat) (hk : k < delims.length)
+    (c : Nat) (hc : 0 < c) (hne : body ≠ [])
+    (hall : ∀ row ∈ body, countChar (delims.getD k ' ') row = c) :
+    consistentCol (body.map fun row => delims.map (fun d => countChar d row)) k = true := by
+  unfold consistentCol totalCol
+  rw [colOf_counts delims body k hk]
+  cases hb : body with
+  | nil => exact absurd hb hne
+  | cons r0 rest =>
+    have h0 : countChar (delims.getD k ' ') r0 = c := hall r0 (by rw [hb]; simp)
+    have hpos : 0 < ((r0 :: rest).map fun row => countChar (delims.getD k ' ') row).foldl (· + ·) 0 := by
+      simp only [List.map_cons, List.foldl_cons, h0, Nat.zero_add]
+      exact Nat.lt_of_lt_of_le hc (foldl_add_ge _ c)
+    have hall' : ((r0 :: rest).map fun row => countChar (delims.getD k ' ') row).all
+        (fun x => decide (x = ((r0 :: rest).map fun row => countChar (delims.getD k ' ') row).headD 0)) = true := by
+      rw [List.all_eq_true]
+      intro x hx
+      obtain ⟨row, hrow, rfl⟩ := List.mem_map.mp hx
+      simp only [List.map_cons, List.headD_cons, h0, decide_eq_true_eq]
+      exact hall row (by rw [hb]; exact hrow)
+    rw [Bool.and_eq_true, Bool.and_eq_true]
+    exact ⟨⟨rfl, decide_eq_true hpos⟩, hall'⟩
+
+theorem not_consistent_of_absent (delims : List Char) (body : List String) (j : Nat) (hj : j < delims.length)
+    (h0 : ∀ row ∈ body, countChar (delims.getD j ' ') row = 0) :
+    consistentCol (body.map fun row => delims.map (fun d => countChar d row)) j = false := by
+  unfold consistentCol totalCol
+  rw [colOf_counts delims body j hj]
+  have : (body.map fun row => countChar (delims.getD j ' ') row).foldl (· + ·) 0 = 0 := by
+    apply foldl_add_zero
+    intro x hx
+    obtain ⟨row, hrow, rfl⟩ := List.mem_map.mp hx
+    exact h0 row hrow
+  rw [this]
+  simp only [Nat.lt_irrefl, decide_false, Bool.and_false, Bool.false_and]
+
+/-- **the inferred delimiter splits every scanned row consistently**: a candidate that passes the test
+    `mean > 0 and std == 0` occurs the same positive number `c` of times in every scanned row, which therefore
+    all split into `c + 1 ≥ 2` fields -/
+theorem equal_counts_of_consistent (delims : List Char) (body : List String) (k : Nat) (hk : k < delims.length)
+    (h : consistentCol (body.map fun row => delims.map (fun d => countChar d row)) k = true) :
+    ∃ c, 0 < c ∧ ∀ row ∈ body, countChar (delims.getD k ' ') row = c ∧
+      (splitAt (delims.getD k ' ') row).length = c + 1 := by
+  unfold consistentCol totalCol at h
+  rw [colOf_counts delims body k hk] at h
+  simp only [Bool.and_eq_true, decide_eq_true_eq, List.all_eq_true] at h
+  obtain ⟨⟨_, hpos⟩, hall⟩ := h
+  refine ⟨(body.map fun row => countChar (delims.getD k ' ') row).headD 0, ?_, ?_⟩
+  · cases hz : (body.map fun row => countChar (delims.getD k ' ') row).headD 0 with
+    | succ n => exact Nat.succ_pos n
+    | zero =>
+      rw [hz] at hall
+      rw [foldl_add_zero _ 0 hall] at hpos
+      exact absurd hpos (Nat.lt_irrefl 0)
+  · intro row hrow
+    have := hall _ (List.mem_map.mpr ⟨row, hrow, rfl⟩)
+    exact ⟨this, by rw [splitAt_length, this]⟩
+
 theorem truncRat_of_int (r : Rat) (h : r.den = 1) : truncRat r = r.num := by
   unfold truncRat
   rw [h]
@@ -215,7 +465,10 @@ theorem fromCsv_clean (symW : Flags → Bool) (num : String → Option Rat) (hea
       have hpairs : (body.map (splitAt d)).map (fun r => (Ident.str (r.getD 0 ""), Ident.str (r.getD 1 "")))
           = ((body.map (splitAt d)).map (fun r => (r.getD 0 "", r.getD 1 ""))).map
               (fun p => (Ident.str p.1, Ident.str p.2)) := by
-        rw [List.map_map]; rfl
+        simp only [List.map_map]
+        apply List.map_congr_left
+        intro _ _
+        rfl
       have hRne : (body.map (splitAt d)).map (fun r => (r.getD 0 "", r.getD 1 "")) ≠ [] := by
         rw [hb]; simp
       have hedges : ((body.map (splitAt d)).map (fun r => (r.getD 0 "", r.getD 1 ""))).map
@@ -283,9 +536,93 @@ theorem fromCsv_clean (symW : Flags → Bool) (num : String → Option Rat) (hea
             = (body.map (splitAt d)).map fun r => (num (r.getD 2 "")).getD 0 := by
           rw [hT, List.map_map]
           rfl
-        simp only [hW, hl3, hemp, habs, htxt, hws, Bool.and_false, Bool.false_and, Bool.false_eq_true, if_false, if_true]
+        simp only [hW, hl3, hemp, habs, htxt, Bool.and_false, Bool.false_and, Bool.false_eq_true, if_false, if_true]
+        refine congrArg _ (congrArg (fun w => fromEdgeArrayWith symW ltInt (some id) _ w f) ?_)
+        rw [← hws]
+        congr 1
     · simp only [hnum, Bool.not_false, if_true]
       rw [hany2]
       simp
+
+/-- `from_csv` with the delimiter handed over (`delimiter=` or its alias `sep=`), on a clean file of at most
+    `n_scan = 100` rows that all have two fields or all have three: the graph of the list of its rows. -/
+theorem fromCsv_given (symW : Flags → Bool) (num : String → Option Rat) (header body : List String)
+    (a : CsvArgs) (f : Flags) (d : Char)
+    (hgiven : csvGiven a = some d)
+    (hlay : a.layout = none ∨ a.layout = some .edgeList)
+    (hh : ∀ s ∈ header, isCommentLine a.comments s = true)
+    (hclean : CleanFile d (lastComment (a.comments.headD '#') header) a.comments header body)
+    (hrs : ∀ s ∈ body, rstrip s = s)
+    (hne : body ≠ []) (hn : body.length ≤ 100)
+    (hshape : (∀ s ∈ body, (splitAt d s).length = 2) ∨ (∀ s ∈ body, (splitAt d s).length = 3))
+    (hint : ∀ s ∈ body, ∀ r, (num ((splitAt d s).getD 0 "") = some r → r.den = 1) ∧
+                              (num ((splitAt d s).getD 1 "") = some r → r.den = 1)) :
+    fromCsvWith symW num (header ++ body) a f
+      = fromEdgeListWith symW (intOfNum num) (tuplesOf num (body.map (splitAt d))) f := by
+  have hsc : csvScan (header ++ body) a = scanHeader (header ++ body) [d] a.comments := by
+    unfold csvScan; rw [hgiven]
+  obtain ⟨h1, h2, h3, h4⟩ := scanHeader_clean [d] a.comments 100 header body hh
+    (fun s hs => hclean.body_data s hs) hn
+  have hdel : (scanHeader (header ++ body) [d] a.comments).delimiter = d := by
+    rw [h3]
+    simp only [List.length_cons, List.length_nil, Nat.zero_add]
+    rw [chooseDelimiter_single]
+    rfl
+  have hd : csvDelimiter (header ++ body) a = d := by
+    unfold csvDelimiter; rw [hgiven]; rfl
+  have hlayout : a.layout.getD (csvScan (header ++ body) a).layout = .edgeList := by
+    rcases hlay with h | h
+    · rw [h, hsc, h4, hdel, map_id_of _ _ hrs]
+      exact layoutOf_edge d body hne hshape
+    · rw [h]; rfl
+  exact fromCsv_clean symW num header body a f d _ hd (by rw [hsc, h2]) hlayout (by rw [hsc, h1]) hclean hne hshape hint
+
+/-- `from_csv` with the delimiter inferred: one of the candidates `\t , ; space` occurs the same positive
+    number of times in every row and the others do not occur. -/
+theorem fromCsv_inferred (symW : Flags → Bool) (num : String → Option Rat) (header body : List String)
+    (a : CsvArgs) (f : Flags) (k : Nat) (hk : k < 4)
+    (hgiven : csvGiven a = none)
+    (hlay : a.layout = none ∨ a.layout = some .edgeList)
+    (hh : ∀ s ∈ header, isCommentLine a.comments s = true)
+    (hclean : CleanFile (['\t', ',', ';', ' '].getD k ' ') (lastComment (a.comments.headD '#') header) a.comments
+      header body)
+    (hrs : ∀ s ∈ body, rstrip s = s)
+    (hne : body ≠ []) (hn : body.length ≤ 100)
+    (hshape : (∀ s ∈ body, (splitAt (['\t', ',', ';', ' '].getD k ' ') s).length = 2) ∨
+              (∀ s ∈ body, (splitAt (['\t', ',', ';', ' '].getD k ' ') s).length = 3))
+    (hothers : ∀ j, j < 4 → j ≠ k → ∀ row ∈ body, countChar (['\t', ',', ';', ' '].getD j ' ') row = 0)
+    (hint : ∀ s ∈ body, ∀ r,
+      (num ((splitAt (['\t', ',', ';', ' '].getD k ' ') s).getD 0 "") = some r → r.den = 1) ∧
+      (num ((splitAt (['\t', ',', ';', ' '].getD k ' ') s).getD 1 "") = some r → r.den = 1)) :
+    fromCsvWith symW num (header ++ body) a f
+      = fromEdgeListWith symW (intOfNum num)
+          (tuplesOf num (body.map (splitAt (['\t', ',', ';', ' '].getD k ' ')))) f := by
+  have hsc : csvScan (header ++ body) a = scanHeader (header ++ body) ['\t', ',', ';', ' '] a.comments := by
+    unfold csvScan; rw [hgiven]
+  obtain ⟨h1, h2, h3, h4⟩ := scanHeader_clean ['\t', ',', ';', ' '] a.comments 100 header body hh
+    (fun s hs => hclean.body_data s hs) hn
+  -- the count of the delimiter on every row
+  have hcount : ∃ c, 0 < c ∧ ∀ row ∈ body, countChar (['\t', ',', ';', ' '].getD k ' ') row = c := by
+    rcases hshape with h | h
+    · exact ⟨1, by omega, fun row hrow => by have := h row hrow; rw [splitAt_length] at this; omega⟩
+    · exact ⟨2, by omega, fun row hrow => by have := h row hrow; rw [splitAt_length] at this; omega⟩
+  obtain ⟨c, hc, hcall⟩ := hcount
+  have hchoose : chooseDelimiter 4 (body.map fun row => ['\t', ',', ';', ' '].map (fun d => countChar d row)) = k :=
+    chooseDelimiter_unique 4 _ k hk
+      (consistent_of_equal_counts ['\t', ',', ';', ' '] body k hk c hc hne hcall)
+      (fun j hj hjk => not_consistent_of_absent ['\t', ',', ';', ' '] body j hj (hothers j hj hjk))
+  have hdel : (scanHeader (header ++ body) ['\t', ',', ';', ' '] a.comments).delimiter
+      = ['\t', ',', ';', ' '].getD k ' ' := by
+    rw [h3]
+    simp only [List.length_cons, List.length_nil, Nat.zero_add]
+    rw [hchoose]
+  have hd : csvDelimiter (header ++ body) a = ['\t', ',', ';', ' '].getD k ' ' := by
+    unfold csvDelimiter; rw [hgiven, hsc, hdel]; rfl
+  have hlayout : a.layout.getD (csvScan (header ++ body) a).layout = .edgeList := by
+    rcases hlay with h | h
+    · rw [h, hsc, h4, hdel, map_id_of _ _ hrs]
+      exact layoutOf_edge _ body hne hshape
+    · rw [h]; rfl
+  exact fromCsv_clean symW num header body a f _ _ hd (by rw [hsc, h2]) hlayout (by rw [hsc, h1]) hclean hne hshape hint
 
 end SkNet.Ingest
